@@ -11,8 +11,8 @@
 From Coq Require Import ZArith List Bool NArith.
 Import ListNotations.
 Require Import PV.Narrow.Base PV.Narrow.Model PV.Narrow.Guards.
-Require Import PV.Gen.NarrowTable PV.Gen.NarrowPreds.
-Require Import PV.Proofs.NarrowSkel.
+Require Import PV.Gen.NarrowTable PV.Gen.NarrowPreds PV.Gen.NarrowSrc.
+Require Import PV.Proofs.NarrowSkel PV.Proofs.NarrowSrcTie.
 Require Import PV.Proofs.NarrowBasics PV.Proofs.NarrowMain PV.Proofs.NarrowWiden PV.Proofs.NarrowVerdict.
 
 (* the class table (mro, TypeObject.base_classes, artificial bases), the per-class
@@ -63,6 +63,73 @@ Proof.
         (conj valueobject_is_skel addannot_is_skel)))).
 Qed.
 Print Assumptions C02_model_predicates_are_skeletons.
+
+(* how source conditions become constraints: the construction sites of name_check_visitor
+   (_constraint_from_compare_op, visit_UnaryOp, visit_BoolOp), implementation (_isinstance_impl,
+   _issubclass_impl, _bool_impl, _len_impl), signature (TypeIs, TypeGuard) and patma (singleton, value,
+   sequence, mapping, class, or, make_constraint), read off the ast on every run, are exactly what
+   cond_acon / match_seq / match_map build *)
+Theorem C02_source_conditions_tie :
+  (forall k ls, cond_acon (compare_cond k ls) = ALeaf (compare_leaf (gen_compare k) ls)) /\
+  (forall cs, isassign_leaf gen_isinstance_site cs = Some (KPred (PIsAssignable (map VTyped cs) false) true) /\
+              cond_acon (CIsInstance cs) = ALeaf (KPred (PIsAssignable (map VTyped cs) false) true)) /\
+  (forall cs, isassign_leaf gen_issubclass_site cs = Some (KPred (PIsAssignable (map VSub cs) false) true) /\
+              cond_acon (CIsSubclass cs) = ALeaf (KPred (PIsAssignable (map VSub cs) false) true)) /\
+  (forall t, fst (fst gen_typeis_site) = T_predicate /\
+             cond_acon (CTypeIs t) = ALeaf (KPred (PIsAssignable t (snd gen_typeis_site)) (snd (fst gen_typeis_site)))) /\
+  (forall t, fst gen_typeguard_site = T_is_value_object /\
+             cond_acon (CTypeGuard t) = ALeaf (KValueObject t (snd gen_typeguard_site))) /\
+  (gen_bool_site = (T_is_truthy, true) /\ cond_acon CTruthy = ALeaf (KTruthy (snd gen_bool_site)) /\
+   gen_len_site = true /\ gen_not_inverts = true /\ gen_and_reversed = true) /\
+  (forall (pre : list epat) (star : bool) (post : list epat),
+     let npat := (length pre + length post + (if star then 1 else 0))%nat in
+     match_seq pre star post =
+     CPAnd (CSeqIs (gen_seq_po npat star))
+           (CPAnd (CSeqLen (fst (gen_seq_len npat star)) (snd (gen_seq_len npat star))) (CElems pre star post))) /\
+  (forall kps, match_map kps = CPAnd (CMapIs (gen_map_po (length kps))) (CMapKeys kps)) /\
+  (forall (c : cls) (l : obj),
+     gen_make_positive = true /\ gen_matchor_is_or = true /\
+     cond_acon (CIs l) = ALeaf (KPred (PEquals l gen_singleton_is) gen_make_positive) /\
+     cond_acon (CEq l) = ALeaf (KPred (PEquals l gen_value_is) gen_make_positive) /\
+     cond_acon (CMatchClass c) = ALeaf (KPred (PIsAssignable [VTyped c] (gen_class_po false false)) gen_make_positive) /\
+     cond_acon (CIsInstance [c]) = ALeaf (KPred (PIsAssignable [VTyped c] (gen_class_po true false)) gen_make_positive) /\
+     cond_acon CAlways = ALeaf (KPred PAlways gen_make_positive)).
+Proof.
+  exact (conj compare_tie (conj isinstance_tie (conj issubclass_tie (conj typeis_tie (conj typeguard_tie
+        (conj bool_len_tie (conj match_seq_tie (conj match_map_tie match_misc_tie)))))))).
+Qed.
+Print Assumptions C02_source_conditions_tie.
+
+(* inversion / application of the abstract constraints and the bodies of EqualsPredicate and
+   InPredicate, translated from stacked_scopes.py / predicates.py, are the model's *)
+Theorem C02_constraint_algebra_tie :
+  (forall (a b : acon) (k : constr),
+     invert (AAnd a b) = mk gen_and_invert (invert a) (invert b) /\
+     invert (AOr a b) = mk gen_or_invert (invert a) (invert b) /\
+     invert ANull = ANull /\ apply_acon ANull = [] /\
+     (gen_leaf_invert_flips = true /\ invert (ALeaf k) = ALeaf (flip k)) /\
+     (gen_and_apply_concat = true /\ apply_acon (AAnd a b) = apply_acon a ++ apply_acon b) /\
+     (gen_leaf_apply_self = true /\ apply_acon (ALeaf k) = [k])) /\
+  (forall a b c d e f g h i, gen_equals a b c d e f g h i = equals_skel a b c d e f g h i) /\
+  (forall a b c d e f g, gen_in a b c d e f g = in_skel a b c d e f g) /\
+  (forall l use_is s positive, wf_obj l = true ->
+     pred_equals l use_is s positive =
+     einterp (equals_skel (is_known_b (sbase s))
+                (Bool.eqb (if use_is then obj_eqb (known_obj (sbase s)) l else py_eq (known_obj (sbase s)) l) positive)
+                positive (assignable_lit s l) (is_bool_lit l) (is_typed_b (sbase s))
+                (cls_eqb (nominal_cls (sbase s)) CBool) (is_enum_lit l)
+                (cls_eqb (nominal_cls (sbase s)) (class_of l))) s l) /\
+  (forall ls s positive,
+     pred_in ls s positive =
+     iinterp (in_skel (is_known_b (sbase s)) (existsb (py_eq (known_obj (sbase s))) ls) positive
+                (match filter (assignable_lit s) ls with [] => false | _ => true end)
+                (match in_pattern_type ls with Some c => is_enum c | None => false end)
+                (match sbase s with VTyped _ => true | _ => false end)
+                (match in_pattern_type ls, sbase s with Some c, VTyped c' => cls_eqb c c' | _, _ => false end)) s ls).
+Proof.
+  exact (conj invert_tie (conj gen_equals_agrees (conj gen_in_agrees (conj pred_equals_is_skel pred_in_is_skel)))).
+Qed.
+Print Assumptions C02_constraint_algebra_tie.
 
 (* (1) the object that takes a branch is still in the type assigned in that branch:
    all condition kinds, arbitrary not/and/or nesting, both polarities, any union V *)
